@@ -84,6 +84,8 @@ class Rec:
         if n < MAX_REPLAYS_PER_FP:
             data = witness(m) if witness else {"model": model_env(m)}
             self.candidates.append((fp, name, data))
+        if len(self.candidates) >= 6 or sum(self._fp_count.values()) >= 40:
+            self.stats.stop = True
         return False
 
     def check_all(self, ctx, items, witness=None, extra=()):
